@@ -490,9 +490,19 @@ _JS_SCRIPT = r'''
 import json, sys
 from jsonschema import Draft202012Validator
 from jsonschema.exceptions import SchemaError
+import decimal
+def conv(x):
+    if isinstance(x, dict):
+        if list(x) == ["__decimal__"]:
+            return decimal.Decimal(x["__decimal__"])
+        return {k: conv(v) for k, v in x.items()}
+    if isinstance(x, list):
+        return [conv(v) for v in x]
+    return x
 jobs = json.load(sys.stdin)
 out = []
 for job in jobs:
+    job["instances"] = [conv(i) for i in job["instances"]]
     res = {}
     try:
         Draft202012Validator.check_schema(job["schema"])
@@ -682,7 +692,8 @@ def gen_scalar(rng, p=None, for_key=False):
         if len([s for s in STR_POOL if _sat_str(cons, s)]) < 2 and "const" not in cons:
             cons = {"max_length": 5}
     else:  # decimal
-        cons = rng.choice([{}, {"max_digits": 6}, {"decimal_places": 3}, {"max_digits": 8, "decimal_places": 3}])
+        cons = rng.choice([{}, {"max_digits": 6}, {"decimal_places": 3}, {"max_digits": 8, "decimal_places": 3},
+                           {"ge": 0}, {"gt": 0, "le": 100}])      # the last two: outside the model (`unmodelled`), oracle only
     d = {"k": "scalar", "p": p, "cons": cons}
     # Lax(...) constraints are C03's business and interact with validator order (found here:
     # `class T(float, Rule): gt=0.5; multiple_of=Lax(1.5)` gives T(1) == 0.0, outside its own `gt`);
@@ -697,14 +708,25 @@ def gen_scalar(rng, p=None, for_key=False):
     return d
 
 
+def _kind(v):
+    return {bool: "bool", int: "int", float: "float", str: "str", type(None): "null"}[type(v)]
+
+
 def gen_enum(rng):
-    if rng.random() < 0.5:
+    r = rng.random()
+    name = "E" + str(rng.randrange(10 ** 6))
+    if r < 0.4:
         vals = rng.sample(range(0, 9), rng.randint(1, 3))
-        return {"k": "enum", "name": "E" + str(rng.randrange(10 ** 6)), "base": rng.choice([None, "int"]),
-                "members": [[chr(65 + i), v] for i, v in enumerate(vals)]}
-    vals = rng.sample(["x", "y", "zz", "on", "off"], rng.randint(1, 3))
-    return {"k": "enum", "name": "E" + str(rng.randrange(10 ** 6)), "base": rng.choice([None, "str"]),
-            "members": [[chr(65 + i), v] for i, v in enumerate(vals)]}
+        base = rng.choice([None, "int"])
+    elif r < 0.8:
+        vals = rng.sample(["x", "y", "zz", "on", "off"], rng.randint(1, 3))
+        base = rng.choice([None, "str"])
+    else:
+        # members of different types (class E(Enum): A = 1; B = 'a')
+        vals = rng.choice([[1, "a"], ["x", 2, 3], [2.5, "on"], [4, None], [7, 0.5, "zz"]])
+        base = None
+    return {"k": "enum", "name": name, "base": base, "members": [[chr(65 + i), v] for i, v in enumerate(vals)],
+            "kinds": [_kind(v) for v in vals]}
 
 
 PLAIN_LEAVES = ["int", "float", "str", "bool", "null", "decimal", "date", "datetime", "time", "timedelta", "uuid", "bytes"]
@@ -780,7 +802,10 @@ def _json_kind(t):
     if k in ("map", "data"):
         return "obj"
     if k == "enum":
-        return "num" if isinstance(t["members"][0][1], int) else "str"
+        kinds = set(t.get("kinds") or [])
+        if len(kinds) != 1:
+            return "any"
+        return "num" if kinds <= {"int", "float"} else "str"
     return "any"
 
 
@@ -789,7 +814,9 @@ def _rejects_none(t):
     k = t["k"]
     if k == "plain":
         return t["p"] in ("date", "datetime", "time", "uuid")
-    if k in ("enum", "map", "data"):
+    if k == "enum":
+        return all(m[1] is not None for m in t["members"])
+    if k in ("map", "data"):
         return True
     if k == "seq":
         return _rejects_none(t["item"])
@@ -980,18 +1007,29 @@ def gen_data(rng, depth=1, nested=False, cls_mode="rand", pool=None, name=None):
     if not nested and rng.random() < 0.2:
         pt = rng.choice([{"k": "plain", "p": "int"}, {"k": "plain", "p": "str"}])
         fields.append({"attname": "p", "prop": True, "ty": pt, "prop_value": 7 if pt["p"] == "int" else "pv"})
-    # dependencies among plain fields
+    # dependencies: mostly among plain fields; sometimes on a field with a default, and sometimes on a field that is
+    # not published / not in every mode (the published data then holds the field without its dependency)
     if len(fields) >= 2 and rng.random() < 0.25:
         a, b = fields[0], fields[1]
-        if not a.get("prop") and not b.get("prop") and not a.get("default") and not b.get("no_output") \
-                and not b.get("no_input") and not b.get("final") \
-                and not b.get("mode") and not b.get("readonly") and not b.get("writeonly"):
-            a["deps"] = [b.get("alias") or b["attname"]]
-            a["required"] = False
+        if not a.get("prop") and not b.get("prop") and not b.get("final"):
+            q = rng.random()
+            plain_b = not b.get("no_output") and not b.get("no_input") and not b.get("mode") \
+                and not b.get("readonly") and not b.get("writeonly")
+            if plain_b or q < 0.4:
+                a["deps"] = [b.get("alias") or b["attname"]]
+                if not (a.get("default") and q < 0.5):
+                    a.pop("default", None)
+                    a.pop("defer_default", None)
+                    a.pop("final", None)
+                    a["required"] = False
     d = {"k": "data", "name": name, "uid": _next_uid(), "opts": opts, "fields": fields, "addTy": None}
     if opts["addition"] == "convert":
         d["addTy"] = rng.choice([{"k": "plain", "p": "int"}, {"k": "scalar", "p": "int", "cons": {"ge": 0}},
-                                 {"k": "plain", "p": "float"}])
+                                 {"k": "plain", "p": "float"},
+                                 # not classes: typing generics / Optional (Options(addition=List[int]))
+                                 {"k": "seq", "p": "list", "cons": {}, "item": {"k": "plain", "p": "int"}},
+                                 {"k": "logic", "op": "anyOf", "ts": [{"k": "plain", "p": "int"}, {"k": "plain", "p": "null"}]},
+                                 {"k": "map", "cons": {}, "key": {"k": "plain", "p": "str"}, "val": {"k": "plain", "p": "int"}}])
     return d
 
 
@@ -1031,7 +1069,8 @@ def _samples(t, rng, n=2):
         elif t["p"] == "str":
             pool = [s for s in STR_POOL if _sat_str(c, s)]
         else:
-            pool = ["1.5", "2.25", "0", "0.0", "40", "0.125"]
+            pool = [v for v in ["1.5", "2.25", "0", "0.0", "40", "0.125"]
+                    if _sat_num({k: b for k, b in c.items() if k in ("gt", "ge", "lt", "le")}, float(v))]
         if not pool:
             return []
         out = [pool[0]]
@@ -1508,7 +1547,8 @@ def _patch_unsafe(enc, pv):
         if k == "decSpecial":
             return 0
         if k == "dec":
-            return 0 if isinstance(enc, str) else enc
+            # the same value as a number (the jsonschema side turns the marker into a decimal.Decimal)
+            return {"__decimal__": v[2]} if isinstance(enc, str) else enc
         if k in ("list", "tuple", "set") and isinstance(enc, list):
             return [_patch_unsafe(e, p) for e, p in zip(enc, v)]
         if k in ("dict", "inst") and isinstance(enc, dict):
@@ -1822,6 +1862,8 @@ class C13(Check):
                     return f"model has no field {pr['name']}"
                 if pr["absent"] not in ("ok", "AbsenceError"):
                     continue
+                if pr["absent"] == "AbsenceError" and pr["absent_item"] != pr["name"]:
+                    continue    # another field (a required dependant left out of the probe input) failed first: undecided
                 absent_err = pr["absent"] == "AbsenceError" and pr["absent_item"] == pr["name"]
                 if absent_err != r["isRequired"]:
                     return f"field {pr['name']}: absence raises={absent_err} model isRequired={r['isRequired']}"
